@@ -73,7 +73,19 @@ fn describe(spec: &PSpec, e: Expect) -> String {
 /// Drive both parse APIs over the generated input set and compare every result with the model.
 pub fn drive_parse<E: Debug + PartialEq>(m: &mut Mon, spec: &'static PSpec, apis: &ParseApis<E>) {
     let mut rng = m.rng("inputs");
-    let lim = if m.tier_thorough { Limits::thorough() } else { Limits::quick() };
+    let mut lim = if m.tier_thorough { Limits::thorough() } else { Limits::quick() };
+    for a in m.args.iter() {
+        if let Some(v) = a.strip_prefix("flipk=") {
+            if let Ok(k) = v.parse() {
+                lim.flip_all_k = k;
+            }
+        }
+        if let Some(v) = a.strip_prefix("random=") {
+            if let Ok(k) = v.parse() {
+                lim.random = k;
+            }
+        }
+    }
     let inputs = gen_inputs(spec, &mut rng, &lim);
     for (s, class) in &inputs {
         check_one(m, spec, apis, s, CLASSES[*class]);
